@@ -327,7 +327,7 @@ fn part_iii(ctx: &mut Ctx) {
 
 pub const ATOMS: &[&str] = &[
     "null", "true", "false", "0", "1", "2", "4", "5", "-1", "1.5", "10000", "9007199254740992", "-9223372036854775808", "18446744073709551615", "\"\"", "\"a\"", "\"é\"", "\"aé😃\"",
-    "\"12\"", "\"a,b\"", "\"\u{ff11}\u{ff12}\"", "\"\u{b2}\"", "[]", "[1,2,3]", "[\"a\",\"b\"]", "{}", "{\"a\":1,\"b\":2}", ".nokey", ".", "(= . 1)", ".a",
+    "\"12\"", "\"a,b\"", "\"\u{ff11}\u{ff12}\"", "\"\u{b2}\"", "[]", "[1,2,3]", "[\"a\",\"b\"]", "{}", "{\"a\":1,\"b\":2}", "[{\"a,b\":1,\"c\":2},{\"a\":1,\"b,c\":2},{\",\":1,\"a\":2},{\"\":1,\",a\":2}]", ".nokey", ".", "(= . 1)", ".a",
 ];
 pub const INPUTS: &[&str] = &["{\"a\":[1,2],\"b\":\"é\"}", "[3,\"x\",null]", "\"é😃\"", "7"];
 
